@@ -138,6 +138,12 @@ class Builtin(object):
     def __repr__(self):
         return 'Builtin(%s)' % self.name
 
+    def __eq__(self, o):
+        return isinstance(o, Builtin) and o.name == self.name
+
+    def __hash__(self):
+        return hash(('Builtin', self.name))
+
 
 class FuncRef(object):
     def __init__(self, func):
